@@ -1,9 +1,12 @@
 package main
 
 import (
+	"bufio"
 	"encoding/json"
 	"fmt"
 	"math/big"
+	"os"
+	"path/filepath"
 	"strings"
 
 	"github.com/cockroachdb/apd/v3"
@@ -274,6 +277,7 @@ func init() {
 	}
 	drivers["parse"] = dParse
 	drivers["format"] = dFormat
+	drivers["gentext"] = dGenText
 	drivers["ctxparse"] = dCtxParse
 }
 
@@ -491,7 +495,7 @@ func fmtValues(g *G, n int) []Dec {
 	}
 	// the boundary values again with a coefficient that lives in heap-backed storage (a BigInt that was once
 	// wider than 128 bits and shrank in place)
-	for _, v := range out[len(vs):len(vs)+2*(12+5*10)] {
+	for _, v := range out[len(vs) : len(vs)+2*(12+5*10)] {
 		v.Hp = true
 		out = append(out, v)
 	}
@@ -544,3 +548,32 @@ func dCtxParse(g *G) {
 
 // NonTrivial: a parse event whose string is not trivially rejected at the first byte, or any formatting event.
 func (e TEv) NonTrivial() bool { return e.Tk != "parse" || e.Ok || len(e.S) > 1 }
+
+// gentext: the strings TLC generated by walking the grammar automaton (Gen_Text.tla -> VERIF_DOMAIN_DIR/textS.ndjson),
+// each fed to every parsing entry point.
+func dGenText(g *G) {
+	f, err := os.Open(filepath.Join(os.Getenv("VERIF_DOMAIN_DIR"), "textS.ndjson"))
+	if err != nil {
+		panic(err)
+	}
+	defer f.Close()
+	sc := bufio.NewScanner(f)
+	sc.Buffer(make([]byte, 1<<16), 1<<20)
+	i := 0
+	for sc.Scan() {
+		var cps []int
+		if err := json.Unmarshal(sc.Bytes(), &cps); err != nil {
+			panic(err)
+		}
+		b := make([]byte, len(cps))
+		for j, c := range cps {
+			b[j] = byte(c)
+		}
+		s := string(b)
+		g.emit(mkParse(parseFns[i%len(parseFns)], s), "gentext")
+		if i%3 == 0 {
+			g.emit(mkParse(parseFns[(i/3+1)%len(parseFns)], s), "gentext")
+		}
+		i++
+	}
+}
